@@ -3,7 +3,7 @@
    vm_compute on the implementation's own gate list, expression list and qubit
    map; this file states what a passing verdict means, for EVERY program. *)
 From Coq Require Import List Bool NArith Arith.
-From QV Require Import Bexp BexpTT Circ Compiled.
+From QV Require Import Bexp BexpTT Circ Compiled M_Names P_Names.
 Import ListNotations.
 Local Open Scope N_scope.
 
@@ -27,6 +27,26 @@ Theorem C02_table_simulation_is_reference_simulation : forall m x c tbl,
   opt_rel (fun t' f' => forall q, proj x t' q = f' q) (sim (tt_alg m) tbl c) (fsim (proj x tbl) c).
 Proof. intros m x c tbl H. now apply sim_tt_spec. Qed.
 Print Assumptions C02_table_simulation_is_reference_simulation.
+
+(* the name add_ancilla gives a new scratch qubit ("anc_r") is never the name of a program symbol
+   (taken = the indices k for which "anc_k" is the name of a parameter or local), it is the first
+   such index from the number of ancillas on, one always exists, and without a clash it is the
+   name the synthesiser always used *)
+Theorem C02_ancilla_name_is_fresh : forall k0 taken r, fresh_anc k0 taken = Some r ->
+  ~ In r taken /\ (k0 <= r)%nat /\ forall j, (k0 <= j < r)%nat -> In j taken.
+Proof. exact fresh_anc_spec. Qed.
+Print Assumptions C02_ancilla_name_is_fresh.
+
+Theorem C02_ancilla_name_exists : forall k0 taken, exists r, fresh_anc k0 taken = Some r.
+Proof. exact fresh_anc_total. Qed.
+Print Assumptions C02_ancilla_name_exists.
+
+Theorem C02_ancilla_name_unchanged_without_clash : forall k0 taken, ~ In k0 taken -> fresh_anc k0 taken = Some k0.
+Proof. exact fresh_anc_no_clash. Qed.
+Print Assumptions C02_ancilla_name_unchanged_without_clash.
+
+Example C02_example_ancilla_name : fresh_anc 1 [1; 2; 5]%nat = Some 3%nat /\ fresh_anc 0 [1; 2]%nat = Some 0%nat.
+Proof. split; vm_compute; reflexivity. Qed.
 
 (* non-vacuity: a correct and an incorrect synthesis of _ret = a & b *)
 Example C02_example_pass :
